@@ -195,6 +195,11 @@ func runCheck(prop, tier, repo, overlayFile, only string, writeEvidence, keep, v
 	lemObls := eng.lemmaObligations(prop)
 	obls = append(obls, lemObls...)
 	obls = append(obls, eng.structuralObligations(prop)...)
+	if only == "" {
+		giObls, giReps := eng.globalInvObligations(prop)
+		obls = append(obls, giObls...)
+		reports = append(reports, giReps...)
+	}
 
 	timeout := 10
 	if tier == "thorough" {
